@@ -46,6 +46,10 @@ CHECKS["C03"] = dict(level="exploration", design="3/C03",
    technique="TLC-evaluated oracle (ChaCha.tla / Salsa.tla written from the specifications) over recorded executions at every length, every call form, counter windows around 2^32 and 2^64, on every backend",
    text="For each of 7 variants x 3 call forms x several (key, nonce, initial counter) windows x 6 backend/build configurations the real functions are run at EVERY length 0..2304 with the output ending at a PROT_NONE page; TLC evaluates the keystream of the group once from the specification module and checks every length against it (all bytes at 36 boundary lengths, two position-weighted checksums at every other length), which also decides 'start at counter i = skip 64*i bytes' across the 32-bit carries because the specification's counter is arithmetic in N; IETF probes at the counter limit +-1 must end in the misuse handler exactly when ic + ceil(len/64) > 2^32; HChaCha20/HSalsa20/Salsa20 cores with and without the constant argument are byte-exact. An input sweep with an independent oracle, not a proof.",
    note="Trusted: TLC; spec modules are anchored on RFC 8439 vectors (ChaCha block, Poly1305) in spec/anchors; at non-boundary lengths only checksums are compared.")
+CHECKS["C04"] = dict(level="exploration", design="3/C04",
+   technique="TLC-evaluated oracle (Sha2.tla, Blake2b.tla, SipHash.tla, Poly1305.tla written from the standards, anchored on hashlib/OpenSSL vectors) over recorded one-shot and multi-part executions on every backend",
+   text="For every listed message length the driver runs the one-shot call and init/update/final under 16 chunkings (single bytes, empty chunks, splits around 16/64/128, random) for SHA-256/512, the three HMACs with key lengths 0..128, BLAKE2b with every output and key length plus salt/personalisation, SipHash-2-4 (64/128 bit), Poly1305 incl. crafted accumulators at 2^130-5+-k and all-0xff blocks, HKDF-SHA-256/512 incl. the 255*HashLen limit, crypto_kdf incl. its range, every single-bit flip of MAC tags, and all out-of-range length combinations; each (function, input) record lists every distinct output seen and TLC requires exactly one, equal to the value it computes from the specification module; run on all BLAKE2b (avx2/sse4.1/ssse3/ref) and Poly1305 (sse2/donna64/donna32) backends and the portable build. An input sweep with an independent oracle, not a proof.",
+   note="Trusted: TLC; the SHA-2 constants are derived from the FIPS definition (integer roots of primes) by tools/gen_tables.py; spec modules must pass 420 anchor records computed by hashlib/hmac/OpenSSL (setup).")
 NOT_YET = {}
 def main():
     props = [json.loads(l) for l in open(os.path.join(HERE, "properties.jsonl"))]
